@@ -431,6 +431,26 @@ def d3_ok_follows_grade(ctx, idx):
                     gv = n.values[keys.index('grade_decimal')]
                     construct = '%s: literal pair (%s, %s)' % (f.qualname[len('mitxgraders.'):], short(okv, 40), short(gv, 40))
                     verdict = _pair_verdict(okv, gv, env)
+                    if verdict is None and isinstance(okv, ast.Name):
+                        # `ok` assigned in several places (pass-through of the comparer's verdict, re-derived when it was 'partial'):
+                        # every re-derivation must use the very grade that is stored next to it
+                        gx = nf.subst(gv, env)
+                        contribs = [a.value for a in walk_own(f.node) if isinstance(a, ast.Assign)
+                                    and any(isinstance(t, ast.Name) and t.id == okv.id for t in a.targets)]
+                        derived = [c for c in contribs if isinstance(c, ast.Call) and nf.callee_name(c) == OK_FUNC and c.args]
+                        passed = [c for c in contribs if _sub_base_key(c)[1] == 'ok']
+                        if derived and len(derived) + len(passed) == len(contribs):
+                            bad = [c for c in derived if not nf.equal(nf.subst(c.args[0], env), gx)]
+                            if not bad:
+                                verdict = True
+                            else:
+                                arg = nf.subst(bad[0].args[0], env)
+                                inside = any(nf.equal(arg, x) for x in ast.walk(gx)) and isinstance(gx, ast.BinOp)
+                                if inside:
+                                    r.violation(construct, "ok is re-derived from `%s`, but the grade stored next to it is `%s`: after scaling by the answer's credit a "
+                                                "partial verdict can reach grade 0 (or 1) while ok stays 'partial' (ok and grade_decimal disagree)"
+                                                % (short(arg), short(gx)), lib.loc(f, n), expected='grade_decimal_to_ok(<the stored grade>)')
+                                    continue
                     if verdict is True:
                         r.ok(construct, 'consistent', lib.loc(f, n))
                     elif verdict is False:
@@ -967,7 +987,15 @@ def d6_ranges(ctx, idx):
 
 
 # ------------------------------------------------------------------------ self-test
+_FG = 'mitxgraders/formulagrader/formulagrader.py'
+_SCALE_LOOP = "        for result in results:\n            result['grade_decimal'] *= answer['grade_decimal']\n            if result['ok'] == 'partial':\n                # Scaling may have taken partial credit down to zero\n                result['ok'] = self.grade_decimal_to_ok(result['grade_decimal'])\n"
+_SCALE_HELPER = "    @staticmethod\n    def scale_by_answer_credit(results, answer_credit):\n        scaled_results = []\n        for result in results:\n            grade_decimal = result['grade_decimal'] * answer_credit\n            ok = result['ok']\n            if ok == 'partial':\n                ok = ItemGrader.grade_decimal_to_ok(%s)\n            scaled_results.append({'ok': ok, 'grade_decimal': grade_decimal, 'msg': result['msg']})\n        return scaled_results\n\n"
+_SCALE_CALL = "        results = self.scale_by_answer_credit(results, answer['grade_decimal'])\n"
+_RAW_CHECK_DEF = "    def raw_check(self, answer, student_input, **kwargs):\n"
+
 MUTANTS = [
+    Mutant('scaling-helper-derives-ok-from-unscaled-grade (seed C01i)', _FG,
+           [(_SCALE_LOOP, _SCALE_CALL), (_RAW_CHECK_DEF, (_SCALE_HELPER % "result['grade_decimal']") + _RAW_CHECK_DEF)], None, 'D3'),
     Mutant('ok-map-returns-comparison (seed C05g)', BASE, "        return {0: False, 1: True}.get(grade, 'partial')",
            "        if grade in (0, 1):\n            return grade == 1\n        return 'partial'", 'D4'),
     Mutant('ok-map-rounds-its-key (seed C17h)', BASE, "        return {0: False, 1: True}.get(grade, 'partial')",
@@ -1012,6 +1040,8 @@ MUTANTS = [
 ]
 
 BENIGN = [
+    Benign('scaling-helper-with-fresh-results', _FG,
+           [(_SCALE_LOOP, _SCALE_CALL), (_RAW_CHECK_DEF, (_SCALE_HELPER % "grade_decimal") + _RAW_CHECK_DEF)], None),
     Benign('ok-map-if-chain-with-bool', BASE, "        return {0: False, 1: True}.get(grade, 'partial')",
            "        if grade in (0, 1):\n            return bool(grade == 1)\n        return 'partial'"),
     Benign('raw-check-repair-guard-variant', 'mitxgraders/formulagrader/formulagrader.py', "            if result['ok'] == 'partial':\n                # Scaling", "            if result['ok'] is not True:\n                # Scaling"),
